@@ -101,4 +101,14 @@ theorem C06_leaf_concrete (prog : List Ins) (e : Avm.Env) (blockIns : List Ins) 
   rw [h]
   exact ⟨(IntSet.asserted_true_iff c n sizesU e.size hsize).mpr, (IntSet.asserted_false_iff c n sizesU e.size hsize).mpr⟩
 
+/-- the tool's leaf matcher on the direct check `global GroupSize; int n; op` returns exactly the operator table's true set
+    and its complement in the universe — the sets `C06_leaf_concrete` places the concrete group size in -/
+theorem C06_leaf_matcher_direct (ic : Option (List Nat)) (a : Ast) (p p1 p2 o1 o2 : Nat) (c : Cmp) (n : Nat)
+    (hp : a.opOf p = .cmp c) (hargs : a.argsOf p = [some (p1, o1), some (p2, o2)])
+    (h1 : a.opOf p1 = .global "GroupSize") (h2 : a.opOf p2 = .int (.lit n)) :
+    intSingle ic a ⟨"GroupSize", .self⟩ p =
+      (OSet.ofList (assertedIntValues c n sizesU), OSet.diff sizesU (OSet.ofList (assertedIntValues c n sizesU))) := by
+  have := IntLeaf.intSingle_direct ic a p p1 p2 o1 o2 c n hp hargs h1 h2
+  simpa [intUniv] using this
+
 end Tealer.C06
